@@ -344,6 +344,13 @@ class Interp:
                 return ('fn', callee_id(o['fn']))
             if o['val'] is not None:
                 return ('const', o['val'], o['ty']['s'])
+            if o.get('promoted'):
+                # a promoted constant (`&Ordering::Equal`, `&0`): the value its own little MIR body returns
+                pb = self.facts.by_uid.get(o['promoted'])
+                if pb is not None and pb.uid != self.body.uid:
+                    r = interp(self.facts, pb).ret
+                    if r is not None and r not in (TOP, UNDEF):
+                        return r
             return ('const', o['s'], o['ty']['s'])
         return TOP
 
